@@ -195,7 +195,7 @@ theorem exec_ax (c : Cfg) : ∀ fuel, AxSpec (exec c fuel)
     intro call s
     simp only [exec]
     split
-    · exact Ax.of_eq rfl rfl
+    · exact (Ax.push s .fuelOut rfl (fun _ => by simp [syncKind])).trans (Ax.of_eq rfl rfl)
     · exact Ax.rfl' s
   | fuel + 1 => body_ax c (exec c fuel) (exec_ax c fuel)
 
